@@ -31,10 +31,10 @@ from .. import lean
 THEOREMS = [
     "Ffcx.Cli.merge_precedence",
     "Ffcx.Cli.merge_precedence_none",
-    "Ffcx.Cli.cli_only_given_partial",
+    "Ffcx.Cli.priority_iff_given",
     "Ffcx.Cli.cli_only_given_generated",
-    "Ffcx.Cli.cli_only_given_counterexample",
-    "Ffcx.Cli.cli_overrides_json_counterexample",
+    "Ffcx.Cli.cli_only_given",
+    "Ffcx.Cli.cli_not_given_falls_through",
     "Ffcx.Cli.decl_defined",
     "Ffcx.Cli.format_code_concat",
     "Ffcx.Cli.sanitise_ident",
@@ -193,7 +193,14 @@ def corr_cli(chk, d, rng, n):
         # F7 oracle on the REAL parser: an FFCx option is in the priority dict iff it was given
         for k in ffcx.options.FFCX_DEFAULT_OPTIONS:
             if (k in real_prio) != (k in dict(given)):
-                chk.notes.setdefault("priority_without_flag", {}).setdefault(k, {"argv": argv, "priority_options": repr(real_prio)})
+                is_flag = isinstance(ffcx.options.FFCX_DEFAULT_OPTIONS[k][1], bool)
+                viol_once(
+                    chk,
+                    f"cli:store_true-overrides-json:{k}" if is_flag else f"cli:priority-without-flag:{k}",
+                    f"main's priority_options contains FFCx option '{k}' iff given is violated "
+                    f"(argparse default {ffcx.main.parser.get_default(k)!r}): the command line shadows ffcx_options.json",
+                    {"argv": argv, "priority_options": repr(real_prio)},
+                )
 
 
 class _Stub(Exception):
